@@ -15,6 +15,7 @@ from gv.astutil import norm_stmt
 from gv.astutil import stmts_of
 from gv.astutil import walk_body
 from gv.cfg import cfg_of
+from gv.props.shared import unfolded
 from gv.dataflow import SymValues
 from gv.dataflow import possibly_unbound
 from gv.props import describe
@@ -520,8 +521,45 @@ def check_discipline_slots(ctx: Ctx) -> None:
     ctx.floor("13.8-discipline-slots", 5)
 
 
+_PCH = "core/chains/parallel_chain.py"
+
+
+def check_parallel_chain_inputs(ctx: Ctx) -> None:
+    """13.9: with use_deep_copy each discipline of a parallel chain gets a deep copy OF ITS OWN: a discipline that
+    works in place on its inputs must not change what its siblings read (a task affects only its own slot)."""
+    f = ctx.index.method(_PCH, "MDOParallelChain", "_get_input_data_copies")
+    con = cname(_PCH, "MDOParallelChain", "_get_input_data_copies")
+    rets = [r for r in stmts_of(f) if isinstance(r, ast.Return) and r.value is not None]
+    ctx.need(rets, "_get_input_data_copies: no return")
+    n = 0
+    for r in rets:
+        alts = unfolded(f, r, {"self._use_deep_copy": True}, get=lambda st: st.value)
+        if alts is None:
+            continue
+        n += 1
+        ok = bool(alts)
+        for a_ in alts:
+            # one fresh deep copy per element: a comprehension (or a list built by append) whose ELEMENT is the copy
+            if isinstance(a_, ast.ListComp) and len(a_.generators) == 1:
+                el = a_.elt
+                copies = [c for c in ast.walk(el) if isinstance(c, ast.Call) and last_attr(c) in ("deepcopy_dict_of_arrays", "deepcopy")]
+                n_src = norm_stmt(a_.generators[0].iter)
+                ok = ok and bool(copies) and ("self.disciplines" in n_src)
+            else:
+                ok = False
+        ctx.ob("13.9-own-inputs", con, ok, "with use_deep_copy every discipline must receive its own deep copy of the chain's data (one copy made per discipline): `[copy] * n` hands the SAME object to all of them, so a discipline working in place on its inputs changes the inputs of the others", node=r, stmt="one deep copy per discipline")
+    ctx.floor("13.9-own-inputs", 1)
+    # the copies are what the executors are given
+    for mname, callee in (("_execute", "parallel_execution"), ("_compute_jacobian", "parallel_lin")):
+        g = ctx.index.method(_PCH, "MDOParallelChain", mname)
+        ex = [c for c in walk_body(g) if isinstance(c, ast.Call) and last_attr(c) == "execute" and callee in norm_stmt(c.func)]
+        ok = len(ex) == 1 and ex[0].args and all(isinstance(a_, ast.Call) and last_attr(a_) == "_get_input_data_copies" for a_ in (unfolded(g, ex[0].args[0]) or [ex[0].args[0]]))
+        ctx.ob("13.9-own-inputs", cname(_PCH, "MDOParallelChain", mname), bool(ok), "the parallel executor must be given the per-discipline copies", node=(ex or [g])[0], stmt=f"{callee}.execute(self._get_input_data_copies())")
+
+
 def run(ctx: Ctx) -> None:
     check_optimal_step_slots(ctx)
+    check_parallel_chain_inputs(ctx)
     check_discipline_slots(ctx)
     check_worker(ctx)
     check_dispatcher(ctx)
